@@ -230,6 +230,38 @@ static void dump_view(econf_file *kf, int with_ext)
   if (groups) econf_freeArray(groups);
 }
 
+/* every typed getter on every listed key; the floating getters are impl-only ("~" lines are not compared) */
+static void all_getters(econf_file *kf)
+{
+  if (!kf) { printf("allget null\n"); return; }
+  size_t ng = 0; char **groups = NULL;
+  econf_err e = econf_getGroups(kf, &ng, &groups);
+  if (e) ng = 0;
+  printf("allget E%d\n", e);
+  for (size_t gi = 0; gi <= ng; gi++) {
+    const char *g = gi == 0 ? NULL : groups[gi - 1];
+    size_t nk = 0; char **keys = NULL;
+    if (econf_getKeys(kf, g, &nk, &keys)) continue;
+    for (size_t k = 0; k < nk; k++) {
+      int32_t i32 = 0; int64_t i64 = 0; uint32_t u32 = 0; uint64_t u64 = 0; bool b = false; float f = 0; double d = 0;
+      econf_err e1 = econf_getIntValue(kf, g, keys[k], &i32), e2 = econf_getInt64Value(kf, g, keys[k], &i64),
+                e3 = econf_getUIntValue(kf, g, keys[k], &u32), e4 = econf_getUInt64Value(kf, g, keys[k], &u64),
+                e5 = econf_getBoolValue(kf, g, keys[k], &b);
+      printf("ag "); put_hex(keys[k]);
+      printf(" i E%d", e1); if (!e1) printf(" %d", i32);
+      printf(" l E%d", e2); if (!e2) printf(" %lld", (long long)i64);
+      printf(" u E%d", e3); if (!e3) printf(" %u", u32);
+      printf(" w E%d", e4); if (!e4) printf(" %llu", (unsigned long long)u64);
+      printf(" b E%d", e5); if (!e5) printf(" %d", (int)b);
+      printf("\n");
+      econf_err e6 = econf_getFloatValue(kf, g, keys[k], &f), e7 = econf_getDoubleValue(kf, g, keys[k], &d);
+      printf("~ag f E%d d E%d\n", e6, e7);
+    }
+    econf_freeArray(keys);
+  }
+  if (groups) econf_freeArray(groups);
+}
+
 static void print_file_bytes(const char *path)
 {
   FILE *f = __real_fopen(path, "rb");
@@ -487,6 +519,7 @@ static void run_cmd(char *line)
       if (!strcmp(c, "W")) print_file_bytes(full); else print_file_sum(full); free(full); }
     free(d); free(nm);
   }
+  else if (!strcmp(c, "ALLGET")) all_getters(slot[sl(tok[1])]);
   else if (!strcmp(c, "DUMP")) dump_view(slot[sl(tok[1])], 0);
   else if (!strcmp(c, "DUMPX")) dump_view(slot[sl(tok[1])], 1);
   else if (!strcmp(c, "RAW")) dump_raw(slot[sl(tok[1])]);
